@@ -539,7 +539,10 @@ class Interp:
             beta = float(np.float32(opts.get("Beta", 1.0)))
             rows = x.reshape(-1, x.shape[-1])
             cache = {}
-            out = [tflref.softmax_row_q8([int(v) for v in r], beta, float(si[0]), lo, hi, cache) for r in rows]
+            try:
+                out = [tflref.softmax_row_q8([int(v) for v in r], beta, float(si[0]), lo, hi, cache) for r in rows]
+            except OverflowError as e:
+                raise Unsupported("SOFTMAX: %s" % e)
             return [np.asarray(out, I64).reshape(x.shape)]
         if code in ("EXP", "LOG", "SQRT", "GELU", "RSQRT"):
             # 8-bit: the reference populates a 256-entry table round(f(dequantised)/output scale) + zero point (float32 there, double here: one step of tolerance);
